@@ -2,6 +2,34 @@
 from . import _whole
 
 
+def cache_pairs(ctx, results):
+    """use_cache=True: two runs in one process with the same seed and box but different objectives must each carry their own objective's values"""
+    import copy
+    import random
+    from .. import gen, monitors, rec
+    rng = random.Random(ctx.seed + 222)
+    viol, n, hits = [], ctx.n(6, 80), 0
+    for _ in range(n):
+        seed = rng.randrange(1, 2 ** 31)
+        a = gen.gen_spec(seed, wrappers="cache", cap_evals=500, height=rng.choice([1, 2]), objective_kind=rng.choice(["sphere", "rastrigin"]))
+        b = copy.deepcopy(a)
+        b["objective"] = gen.gen_objective(random.Random(seed + 1), a["dim"], a["box"], a["maximize"], "funnel" if a["objective"]["kind"] != "funnel" else "sphere")
+        for spec in (a, b):
+            r = rec.run_spec(spec)
+            vs = [v for v in monitors.c02(r) if v["key"].startswith("C02")]
+            for v in vs[:1]:
+                viol.append(dict(v, what="use_cache=True, second problem in the same process: " + v["what"] if spec is b else v["what"], seed=seed, spec=spec, replay_fn="cache"))
+            hits += sum(1 for e in r["events"] if e["e"] == "req") - sum(1 for e in r["events"] if e["e"] == "call")
+    return {"violations": viol[:4], "evaluations": 2 * n, "distinct_nontrivial": n, "notes": {"cached_problem_pairs": n, "cache_hits_observed": hits}}
+
+
+def _replay_cache(ctx, data):
+    return False, "cache pair: " + str(data.get("what"))[:400]
+
+
+cache_pairs.replay_name, cache_pairs.replay = "cache", _replay_cache
+
+
 def nontrivial(r):
     return r["stats"].get("demes", 0) > 1 and r["stats"].get("metaepochs", 0) >= 2
 
@@ -14,5 +42,5 @@ _whole.install(globals(), "C02",
                note="Object identity / aliasing is a runtime matter the Gallina model cannot express; it is covered only by the recorder's re-hashing (partial). Local search: the pair (x, fun) "
                     "scipy hands to the callback is checked against the objective by the monitor (contract X5). " + _whole.HIST_NOTE,
                technique="Coq invariant of the history machine over all event streams + vm_compute trace replay + re-evaluation monitor on real runs",
-               quick=200, thorough=5000, nontrivial=nontrivial, machine_replay=False, hist_replay=True,
+               quick=200, thorough=5000, nontrivial=nontrivial, machine_replay=False, hist_replay=True, extra_checks=[cache_pairs],
                forces=[(3, {"cap_evals": 900}), (1, {"cap_evals": 900, "height": 2, "engines": ["DE", "Local"]}), (1, {"cap_evals": 900, "height": 2, "engines": ["SHADE", "DE"]})])
